@@ -125,6 +125,8 @@ func (h *StoreH) Reopen() {
 	if h.Spec.Backend != "file" {
 		return
 	}
+	// a restart is a new process: the message ID counter starts again
+	file.VerifRestartIDs()
 	st, err := file.New(config.Storage{MailboxMsgCap: h.Spec.Cap, Params: map[string]string{"path": h.Dir}}, h.Ext)
 	if err != nil {
 		panic("VERIF-INFRA file.New (reopen): " + err.Error())
